@@ -6,12 +6,19 @@ import (
 	"strings"
 )
 
+// newNilValue returns a nil value of its own: the binding is addressable,
+// so sharing NilValue itself would let a store through a pointer to one
+// binding change every nil of the process.
+func newNilValue() reflect.Value {
+	return reflect.New(reflect.TypeOf((*interface{})(nil)).Elem()).Elem()
+}
+
 // define
 
 // Define defines/sets interface value to symbol in current scope.
 func (e *Env) Define(symbol string, value interface{}) error {
 	if value == nil {
-		return e.DefineValue(symbol, NilValue)
+		return e.DefineValue(symbol, newNilValue())
 	}
 	return e.DefineValue(symbol, reflect.ValueOf(value))
 }
@@ -53,7 +60,7 @@ func (e *Env) DefineGlobalValue(symbol string, value reflect.Value) error {
 // Set interface value to the scope where symbol is first found.
 func (e *Env) Set(symbol string, value interface{}) error {
 	if value == nil {
-		return e.SetValue(symbol, NilValue)
+		return e.SetValue(symbol, newNilValue())
 	}
 	return e.SetValue(symbol, reflect.ValueOf(value))
 }
